@@ -497,6 +497,7 @@ func runC06(c *config) {
 		c06One(c, u, cs, bodies, i < 3)
 	}
 	c06CallSpellings(c)
+	c06NamedOperands(c)
 	c06Const(c, newRng(c.seed, "c06const"))
 }
 
@@ -761,5 +762,48 @@ func c06Const(c *config, r *rng) {
 			o.Pass("result_type")
 		}
 		o.Nontrivial("cexpr:" + src)
+	}
+}
+
+// operands of a NAMED vector (or scalar) type: the result type of a comparison is built from the operand's shape,
+// not from its name (`icmp eq %v4 %a, %b` with `%v4 = type <4 x i32>` is a `<4 x i1>`), in the constructors, in the
+// parser, and in what a use of the result prints
+func c06NamedOperands(c *config) {
+	o := c.out
+	type tc struct {
+		def, op, operandT, want string
+		build                   func(x *ir.Param) value.Value
+		named                   types.Type
+	}
+	mk := func(name string, t types.Type) types.Type { t.SetName(name); return t }
+	cases := []tc{
+		{"%v4 = type <4 x i32>", "icmp eq %v4 %a, %a", "%v4", "<4 x i1>", func(x *ir.Param) value.Value { return ir.NewICmp(enum.IPredEQ, x, x) }, mk("v4", types.NewVector(4, types.I32))},
+		{"%vf = type <2 x double>", "fcmp olt %vf %a, %a", "%vf", "<2 x i1>", func(x *ir.Param) value.Value { return ir.NewFCmp(enum.FPredOLT, x, x) }, mk("vf", types.NewVector(2, types.Double))},
+		{"%w = type i32", "icmp ult %w %a, %a", "%w", "i1", func(x *ir.Param) value.Value { return ir.NewICmp(enum.IPredULT, x, x) }, mk("w", types.NewInt(32))},
+	}
+	for _, k := range cases {
+		o.Stat("named_operand_types")
+		ctorT := tyOrPanic(func() types.Type { return k.build(ir.NewParam("a", k.named)).Type() })
+		src := fmt.Sprintf("%s\ndefine %s @f(%s %%a) {\n\t%%r = %s\n\tret %s %%r\n}\n", k.def, k.want, k.operandT, k.op, k.want)
+		parseT, printed := "Panic", ""
+		oc, msg := guard(func() error {
+			m, err := asm.ParseString("c06n.ll", src)
+			if err != nil {
+				return err
+			}
+			parseT = "Ok " + m.Funcs[0].Blocks[0].Insts[0].(value.Value).Type().String()
+			printed = m.String()
+			return nil
+		})
+		if oc == ocErr {
+			parseT = "Err " + msg
+		}
+		want := "Ok " + k.want
+		if ctorT != want || parseT != want || !strings.Contains(printed, "ret "+k.want+" %r") {
+			o.Fail("result_type", "", "a comparison over operands of a named type does not have the unnamed result type LLVM gives it",
+				map[string]interface{}{"src": src, "want": want, "constructor": ctorT, "parser": parseT, "printed": printed})
+		} else {
+			o.Pass("result_type")
+		}
 	}
 }
